@@ -35,7 +35,7 @@ ASSUMPTIONS = [
     "XML well-formedness in the presence of control characters is required only with strip_control=True",
     "characters that XML 1.0 cannot represent at all (U+FFFE, U+FFFF, lone surrogates) are not generated",
 ]
-PROBES = ["rotated or mirrored text", "earlier job aborted inside a form", "page selection: none", "page selection: first", "page selection: odd", "xml with exported images", "sink:StringIO", "sink:TextIOWrapper", "sink:BytesIO", "sink:mode-w", "sink:mode-wb", "sink:duck", "codec:utf-16-le", "codec:utf-32-le", "codec:latin-1", "special char in text", "control char in text", "astral char in text", "special char in font name", "special char in figure name", "strip_control", "figure", "shape", "image", "boxes_flow None", "vertical text box"]
+PROBES = ["page box degenerate or displaced", "rotated or mirrored text", "earlier job aborted inside a form", "page selection: none", "page selection: first", "page selection: odd", "xml with exported images", "sink:StringIO", "sink:TextIOWrapper", "sink:BytesIO", "sink:mode-w", "sink:mode-wb", "sink:duck", "codec:utf-16-le", "codec:utf-32-le", "codec:latin-1", "special char in text", "control char in text", "astral char in text", "special char in font name", "special char in figure name", "strip_control", "figure", "shape", "image", "boxes_flow None", "vertical text box"]
 TIERS = {
     "quick": {"batches": 16, "runs": 350, "budget_s": 50},
     "thorough": {"batches": 128, "runs": 500, "budget_s": 1200},
@@ -152,7 +152,12 @@ def build_document(t, ctx):
                 for i in range(t.rint(2, 5, "vn")):
                     parts.append(b"BT /F1 10 Tf %d %d Td (%s) Tj ET" % (x, 700 - 12 * i, bytes((t.rint(0x41, 0x4A, "vch"),))))
         c = alloc(docs.content_stream(b"\n".join(parts)))
-        kids.append(alloc({b"Type": Name(b"Page"), b"Parent": Ref(2, 0), b"MediaBox": [0, 0, 612, 792], b"Contents": c, b"Resources": {b"Font": fonts, b"XObject": xobjs}}))
+        mediabox = [0, 0, 612, 792]
+        if t.coin(6, 100, "mediabox.odd"):
+            # a page box without area, far from the origin, or tiny: the text on the page is text all the same
+            mediabox = t.pick([[0, 0, 300, 0], [40, 0, 40, 200], [0, 0, 0, 0], [1000, 1000, 1612, 1792], [0, 0, 1, 1], [-300, -300, 312, 492]], "mediabox.odd.box")
+            ctx.probe("page box degenerate or displaced")
+        kids.append(alloc({b"Type": Name(b"Page"), b"Parent": Ref(2, 0), b"MediaBox": mediabox, b"Contents": c, b"Resources": {b"Font": fonts, b"XObject": xobjs}}))
     objects[1] = {b"Type": Name(b"Catalog"), b"Pages": Ref(2, 0)}
     objects[2] = {b"Type": Name(b"Pages"), b"Kids": kids, b"Count": len(kids)}
     return docs.build_pdf(objects, 1).getvalue(), special
